@@ -5,6 +5,7 @@ package c11
 import (
 	"encoding/json"
 	"fmt"
+	"math"
 	"slices"
 	"sort"
 
@@ -245,7 +246,9 @@ type world interface {
 }
 
 type mapWorld struct{ p []*container.MapSet[int] }
-type sortedWorld struct{ p []*container.SortedSliceSet[int] }
+type sortedWorld struct {
+	p []*container.SortedSliceSet[int]
+}
 
 func (w *mapWorld) name() string    { return "MapSet" }
 func (w *sortedWorld) name() string { return "SortedSliceSet" }
@@ -391,6 +394,133 @@ func (w *sortedWorld) extra(probe []int) string {
 	return ""
 }
 
+// sortedFloatWorld instantiates SortedSliceSet with float64 and maps the
+// abstract values 1, 2, 3, 4 to NaN, -Inf, zero and +Inf (ascending in
+// cmp.Compare order, which is the order SortedSliceSet documents): a NaN in
+// the set must not disturb lookups of ordinary values, and -0 and +0 are the
+// same element.
+type sortedFloatWorld struct {
+	p []*container.SortedSliceSet[float64]
+}
+
+func (w *sortedFloatWorld) name() string { return "SortedSliceSet[float64]" }
+
+func toFloat(v int, negZero bool) float64 {
+	switch v {
+	case 1:
+		return math.NaN()
+	case 2:
+		return math.Inf(-1)
+	case 3:
+		if negZero {
+			return math.Copysign(0, -1)
+		}
+		return 0
+	case 4:
+		return math.Inf(1)
+	}
+	return float64(v)
+}
+
+func fromFloat(f float64) int {
+	switch {
+	case f != f:
+		return 1
+	case math.IsInf(f, -1):
+		return 2
+	case f == 0:
+		return 3
+	case math.IsInf(f, 1):
+		return 4
+	}
+	return int(f)
+}
+
+func (w *sortedFloatWorld) apply(op setOp) {
+	i := op.I - 1
+	switch op.Op {
+	case "new":
+		fs := make([]float64, len(op.Args))
+		for k, v := range op.Args {
+			fs[k] = toFloat(v, k%2 == 0)
+		}
+		w.p[i] = container.NewSortedSliceSet(fs...)
+	case "add":
+		w.p[i].Add(toFloat(op.V, true))
+	case "delete":
+		if w.p[i] != nil {
+			w.p[i].Delete(toFloat(op.V, false))
+		}
+	case "clear":
+		w.p[i].Clear()
+	case "clone":
+		w.p[op.J-1] = w.p[i].Clone()
+	case "drop":
+		w.p[i] = nil
+	default:
+		panic("harness: unknown op " + op.Op)
+	}
+}
+
+func (w *sortedFloatWorld) has(i, v int) bool { return w.p[i].Has(toFloat(v, false)) }
+
+func (w *sortedFloatWorld) observe() []setObs {
+	out := make([]setObs, len(w.p))
+	for i, s := range w.p {
+		vals := []int{}
+		for _, f := range s.Values() {
+			vals = append(vals, fromFloat(f))
+		}
+		o := setObs{Nil: s == nil, Len: s.Len(), Vals: vals}
+		for _, t := range w.p {
+			// NaN != NaN, so whether a set containing a NaN equals itself is
+			// outside the "mathematical set" of the statement: Equal is only
+			// judged between NaN-free sets; otherwise the abstract answer is
+			// filled in.
+			tv := []int{}
+			for _, f := range t.Values() {
+				tv = append(tv, fromFloat(f))
+			}
+			if slices.Contains(vals, 1) || slices.Contains(tv, 1) {
+				o.Eq = append(o.Eq, (s == nil) == (t == nil) && slices.Equal(vals, tv))
+			} else {
+				o.Eq = append(o.Eq, s.Equal(t))
+			}
+		}
+		out[i] = o
+	}
+	return out
+}
+
+func (w *sortedFloatWorld) extra(probe []int) string {
+	for i, s := range w.p {
+		var vals []int
+		for _, f := range s.Values() {
+			vals = append(vals, fromFloat(f))
+		}
+		for _, v := range probe {
+			if v < 1 || v > 4 {
+				continue
+			}
+			if s.Has(toFloat(v, false)) != slices.Contains(vals, v) || s.Has(toFloat(v, true)) != slices.Contains(vals, v) {
+				return fmt.Sprintf("p%d: Has(%v)=%v disagrees with Values %v", i+1, toFloat(v, false), s.Has(toFloat(v, false)), s.Values())
+			}
+		}
+		for k := 0; k <= len(vals); k++ {
+			var got []int
+			s.Range(func(f float64) bool { got = append(got, fromFloat(f)); return k == 0 || len(got) < k })
+			want := vals
+			if k > 0 {
+				want = vals[:k]
+			}
+			if !slices.Equal(got, want) {
+				return fmt.Sprintf("p%d: Range stopping after %d yielded %v, want %v", i+1, k, got, want)
+			}
+		}
+	}
+	return ""
+}
+
 func sameSetObs(a, b []setObs) bool {
 	if len(a) != len(b) {
 		return false
@@ -401,6 +531,17 @@ func sameSetObs(a, b []setObs) bool {
 		}
 	}
 	return true
+}
+
+func maxVal(ops []setOp) int {
+	m := 0
+	for _, o := range ops {
+		m = max(m, o.V)
+		for _, a := range o.Args {
+			m = max(m, a)
+		}
+	}
+	return m
 }
 
 func setOpsKey(ops []setOp) string {
@@ -444,7 +585,11 @@ func replaySets(args []string) error {
 			res.Sample(v)
 		}
 		np := len(v.Obs)
-		for _, w := range []world{&mapWorld{p: make([]*container.MapSet[int], np)}, &sortedWorld{p: make([]*container.SortedSliceSet[int], np)}} {
+		worlds := []world{&mapWorld{p: make([]*container.MapSet[int], np)}, &sortedWorld{p: make([]*container.SortedSliceSet[int], np)}}
+		if maxVal(v.Ops) <= 4 {
+			worlds = append(worlds, &sortedFloatWorld{p: make([]*container.SortedSliceSet[float64], np)})
+		}
+		for _, w := range worlds {
 			var got []setObs
 			var extra string
 			pv, panicked := vh.Try(func() {
